@@ -144,7 +144,7 @@ GUARDABLE = ('job-token-collision', 'input-root-collision', 'input-group-basenam
              'python-builtin-callable')
 # reported, not (yet) listed in known_findings.json: excluded by construction in *every* shard until listed; once listed
 # as known the usual regime applies (shards 0-3 re-demonstrate it, the others exclude it)
-PENDING = ('python-builtin-callable',)
+PENDING = ()        # (python-builtin-callable was repaired in /repo: fix commit 889808824)
 
 
 # ------------------------------------------------------------------------------------------------ fakes
@@ -654,9 +654,14 @@ def _run_case(case, sess, guards=frozenset()):
                         fi, builtin = fi % 3, False
                     fobj = FUNCS[fi]
                     leaves = []
-                    built = [x for x in (build_arg(a, mj, leaves) for a in op[3]) if x is not None]
+                    # builtins are called the way their signatures allow (call() binds the arguments and refuses otherwise):
+                    # print(*values), repr(one_object); no harness keyword arguments
+                    arg_specs = (list(op[3][:1]) or [['val', 0]]) if fobj is repr else op[3]
+                    built = [x for x in (build_arg(a, mj, leaves) for a in arg_specs) if x is not None]
+                    if fobj is repr and not built:
+                        built = [build_arg(['val', 0], mj, leaves)]
                     kmodels, kactual = {}, {}
-                    for kw, a in op[4]:
+                    for kw, a in ([] if builtin else op[4]):
                         kwname = KWNAMES[kw % len(KWNAMES)]
                         if kwname in kmodels:
                             continue
